@@ -60,6 +60,8 @@ class C12(FCheck):
         if r.random() < 0.3:
             ops.append(gen.d_op("dst"))
         inv = gen.mk_inv(["src"], "dst", driver=driver, workers=min(workers, 16), block_size=bs, **flags)
+        if r.random() < 0.3:
+            kernel = dict(kernel, time_jump_p=r.choice([0.02, 0.1, 0.5]))
         updater = ["record", "channel", "noop"][idx % 3]
         mode = ["thread", "inline"][(idx // 3) % 2]
         race_shape = idx % 10 == 4
